@@ -1,17 +1,23 @@
 #!/bin/sh
-# usage: engine/at_commit.sh <commit-ish> [patch.diff] -- <vcheck args...>
+# usage: engine/at_commit.sh <commit-ish> [patch.diff | revert:<commit>] -- <vcheck args...>
 # Runs vcheck against a scratch worktree of /repo at the given commit (optionally with a patch
-# applied), then removes the worktree. Evidence/replays written by such a run are NOT evidence
-# for the registered checks: re-run the check on /repo afterwards.
+# applied or a commit reverted), then removes the worktree. Evidence and replays of such a run
+# go to a scratch directory (printed), never to /verif/evidence.
 set -e
 C="$1"; shift
 P=""
 if [ "$1" != "--" ]; then P="$1"; shift; fi
 shift
 D=$(mktemp -d /tmp/verif-wt-XXXXXX)
+E=$(mktemp -d /tmp/verif-ev-XXXXXX)
 git -C /repo worktree add -q --detach "$D" "$C"
-if [ -n "$P" ]; then git -C "$D" apply "$P"; fi
+case "$P" in
+  "") ;;
+  revert:*) git -C "$D" revert -n --no-edit "${P#revert:}" >/dev/null 2>&1 || { echo "REVERT-CONFLICT ${P#revert:}"; git -C /repo worktree remove --force "$D"; rm -rf "$E"; exit 3; } ;;
+  *) git -C "$D" apply "$P" ;;
+esac
 rc=0
-VERIF_REPO="$D" "$(dirname "$0")/../vcheck" "$@" || rc=$?
+VERIF_REPO="$D" VERIF_EVIDENCE_DIR="$E" VERIF_REPLAY_DIR="$E" "$(dirname "$0")/../vcheck" "$@" || rc=$?
 git -C /repo worktree remove --force "$D"
+rm -rf "$E"
 exit $rc
